@@ -302,6 +302,12 @@ def model(m, s, fi, t, fk, args, site):
         ref, seq = seq_of(m, s, args[0])
         k = 0 if n == "first" else len(seq) - 1
         return some(Ref(ref.fi, ref.local, ref.proj + (("i", k),)) if ref is not None else seq[k])
+    if n in ("as_ref", "as_mut", "as_slice", "as_mut_slice", "borrow", "borrow_mut") and len(args) == 1 and isinstance(A[0], Adt) and A[0].name.split("::")[-1] == "BigInt" \
+            and len(A[0].fields) == 1 and isinstance(A[0].fields[0], Tup):
+        # ark-ff BigInt<N>: its limb array (public field .0) seen as a slice
+        if isinstance(args[0], Ref):
+            return Ref(args[0].fi, args[0].local, args[0].proj + (("f", 0, None),))
+        return A[0].fields[0]
     if n in ("as_ref", "as_mut", "as_slice", "as_mut_slice", "borrow", "borrow_mut", "as_bytes") and len(args) == 1:
         ref, seq = seq_of(m, s, args[0])
         if seq is not None:
